@@ -266,7 +266,9 @@ class ProjectConfig:
 
                 parsed_diagnostics.extend(cls.validate_data(result.data))
 
-                return result, parsed_diagnostics
+                # Keep what was wrong with the files found on the way up: opening another
+                # project in silence is not what a broken snooty.toml calls for
+                return result, diagnostics + parsed_diagnostics
             except FileNotFoundError:
                 pass
             except (OSError, UnicodeDecodeError) as err:
